@@ -12,6 +12,7 @@ CONSTANTS
   Weak_BackwardsUnbound = FALSE
   Weak_ReplacementHashUnchecked = FALSE
   Weak_PromotedWitnessStays = FALSE
+  Weak_PartialTraceOnBenignError = FALSE
 INIT CaseInit
 NEXT CaseNext
 INVARIANTS VerifierSound AdjacentSound NonAdjacentSound BackwardsSound GenuineAccepted
